@@ -11,7 +11,6 @@ PROP = dict(
     outside="NOT VERIFIED IN TIME (same harness functions instantiated for the other chunk sizes, prepared in c34.rs): c34_step_{4,8,16,32,128,256}, c34_inv_{4..512 except 64}, c34_multi_{128,512}; c34_member_merge/union (add(other), union) did not finish in 400 s. The server's filter changing between chunk requests; false-positive rate; ServerId::new's random generation.",
     assumptions=[
         "representation invariant of RemoteBloomFilter as stated in bounds (established by new(), c34_new, preserved by every step)",
-        "c34_req_new: len+offset <= 65535 (u16 sum in ReferenceIdRequest::new; beyond that: finding, harness c34_req_new_kf_u16_wrap expected to fail)",
         "server id positions < 4096 (type invariant of U12)",
     ],
     stub_notes=["hooks only build/read RemoteBloomFilter/BloomFilter/ServerId from raw fields (remote_from_raw, remote_raw, bloom_from_bytes, server_id_from_raw, refid_request_from_raw)"],
@@ -23,9 +22,10 @@ PROP = dict(
         H(NP, "c34", "c34_multi_256", "whole transfer from new(256): complete exactly after 512/c answers and equal to the server's filter", tier="thorough", timeout_thorough=3600),  # measured 141 s CBMC under load
         H(NP, "c34", "c34_server", 'server answer = exactly filter[offset..offset+len] or None', timeout=900),  # measured 49 s CBMC under load
         H(NP, "c34", "c34_req_new", 'ReferenceIdRequest::new validates alignment and range', timeout=900),  # measured 0 s CBMC under load
+        H(NP, "c34", "c34_req_new_wide", 'ReferenceIdRequest::new for all u16 len/offset incl. len+offset > 65535 (formerly wrapping, fixed in 68ebe1f): Some iff aligned and in range, no overflow', timeout=900),
         H(NP, "c34", "c34_member_add", 'add_id then contains_id; exactly the ten bits set', tier="thorough", timeout_thorough=3600),  # measured 284 s CBMC under load
         H(NP, "c34", "c34_member_def", 'contains_id == all ten bits set; empty filter has no members', tier="thorough", timeout_thorough=3600),  # measured 112 s CBMC under load
     ],
     # prepared in the harness crate but NOT registered (did not finish / not re-verified in time / expected to fail):
-    # c34_step_4, c34_step_8, c34_step_16, c34_step_32, c34_step_128, c34_step_256, c34_inv_4, c34_inv_8, c34_inv_16, c34_inv_32, c34_inv_128, c34_inv_256, c34_inv_512, c34_multi_128, c34_multi_512, c34_req_new_kf_u16_wrap, c34_member_merge, c34_member_union
+    # c34_step_4, c34_step_8, c34_step_16, c34_step_32, c34_step_128, c34_step_256, c34_inv_4, c34_inv_8, c34_inv_16, c34_inv_32, c34_inv_128, c34_inv_256, c34_inv_512, c34_multi_128, c34_multi_512, c34_member_merge, c34_member_union
 )
